@@ -147,6 +147,13 @@ pub fn run(a: &Args) {
             emit(&mut out, t, &mut rng, a.thorough, "classic");
         }
     }
+    if a.shard == 1 % a.shards {
+        let mut rng = Rng::for_case(a.seed, 2, 0);
+        for _ in 0..(if a.thorough { 12 } else { 4 }) {
+            let t = grammar::pager_orphan_family(&mut rng);
+            emit(&mut out, &t, &mut rng, a.thorough, "pager_orphan_family");
+        }
+    }
     let n = if a.thorough { 4000 } else { 320 };
     for case in 0..n {
         if case % a.shards != a.shard {
@@ -158,6 +165,11 @@ pub fn run(a: &Args) {
             emit(&mut out, &t, &mut rng, a.thorough, "lr1_family");
         } else {
             let cfg = GenCfg { precs: false, max_rules: 5, ..GenCfg::default() };
+            if case % 4 == 2 {
+                let g = grammar::layered_grammar(&mut rng);
+                emit(&mut out, &g.render(), &mut rng, a.thorough, "layered");
+                continue;
+            }
             let g = grammar::random_grammar(&mut rng, &cfg);
             emit(&mut out, &g.render(), &mut rng, a.thorough, "random");
         }
